@@ -31,6 +31,9 @@ import (
 	"github.com/skycoin/skycoin/src/visor/historydb"
 )
 
+// how long the integrity verification of a crash image may take (the rebuild scenario verifies long chains)
+var vcWatchdog = 8 * time.Second
+
 type vcFinal struct {
 	Head    uint64   `json:"head"`
 	Hash    string   `json:"hash"`
@@ -230,7 +233,7 @@ func vcRun(t *testing.T, dbPath string, cfg Config, steps []vcStep, verify bool,
 			if err != nil {
 				check = "err:" + err.Error()
 			}
-		case <-time.After(8 * time.Second):
+		case <-time.After(vcWatchdog):
 			check = "timeout"
 			close(quit)
 			select {
